@@ -41,6 +41,14 @@
                                  mutant FALSE = "fixed name, no truncation" reuses that leftover: a later
                                  SHORTER snapshot (a job went away: RemoveJob) overwrites only its head, and
                                  head + stale tail replaces the good file
+        M_SyncBeforeRename       (mechanism, TRUE = the code) ORDER of the steps: every Write, then Sync of the
+                                 temp descriptor, and only then Rename (file: ... Sync -> Rename -> Close;
+                                 generic: ... Sync -> Close -> Rename).  The mutant FALSE = "rename, then
+                                 fsync" (make the snapshot durable under its final name): Write -> Rename ->
+                                 Sync -> Close.  It must be rejected by DurableBeforeReplace (the file is
+                                 replaced by content that is not durable yet; a crash view is an empty or
+                                 partial offsets file) and by FailedStepKeepsOld (when that Sync fails the
+                                 good file is already gone although the save reports failure)
       The D_ switches are FALSE and the M_ mechanisms are TRUE in every configuration that describes the code.  The check also runs each mutant
       and TLC MUST reject it (FailedStepKeepsOld / DurableBeforeReplace / AlwaysLoadable violated): this
       keeps "a failed step is never followed by the rename" and "fsync before rename" shown necessary,
@@ -65,6 +73,7 @@ CONSTANTS Site,                      \* "file" | "generic"
           D_RenameAfterFailedStep,   \* MUTANT (pre-f12db3f): Write/Sync errors are logged, Rename still happens
           D_NoFsync,                 \* MUTANT (pre-5cb7036): offset.Save has no fsync before Rename
           M_ZeroOffsetsWritten,      \* mechanism: offset 0 is written like any other offset (FALSE = mutant)
+          M_SyncBeforeRename,        \* mechanism: Sync precedes Rename (FALSE = mutant: Write -> Rename -> Sync -> Close)
           M_TmpStartsEmpty,          \* mechanism: fresh temp name / O_TRUNC (FALSE = mutant: fixed name, no truncation)
           CLen(_),                   \* size of a content: tokens here (TokLen), bytes in OffsetsFileTrace (SegLen)
           MidSaveCommits,            \* commits may interleave with the steps of a save
@@ -208,7 +217,8 @@ PWrite(ok, res, n) == \* one Write at the descriptor's position: res = the file'
   /\ FsWrite(fd, res, fpos)
   /\ fpos' = fpos + n
   /\ IF ok THEN /\ failed' = failed
-                /\ pc' = IF Site = "generic" /\ D_NoFsync THEN "close" ELSE "sync"
+                /\ pc' = IF ~M_SyncBeforeRename THEN "rename"                             \* mutant: rename first
+                         ELSE IF Site = "generic" /\ D_NoFsync THEN "close" ELSE "sync"
            ELSE /\ failed' = failed \cup {"write"}
                 /\ pc' = IF Site = "generic" THEN "close"                               \* return err (deferred Close)
                          ELSE IF D_RenameAfterFailedStep THEN "sync"                    \* mutant: error only logged
@@ -217,13 +227,15 @@ PWrite(ok, res, n) == \* one Write at the descriptor's position: res = the file'
 
 PSync(ok) ==
   /\ pc = "sync"
-  /\ IF ok THEN /\ FsSync(fd) /\ failed' = failed
-                /\ pc' = IF Site = "file" THEN "rename" ELSE "close"
+  /\ IF ok THEN /\ FsSync(fd) /\ failed' = failed /\ bad' = bad
+                /\ pc' = IF ~M_SyncBeforeRename THEN "close" ELSE IF Site = "file" THEN "rename" ELSE "close"
            ELSE /\ UNCHANGED fsvars /\ failed' = failed \cup {"sync"}
-                /\ pc' = IF Site = "generic" THEN "close"
+                \* a Sync that fails when this save's file has ALREADY replaced the offsets file: the unsuccessful save replaced it
+                /\ bad' = bad \cup (IF dir["cur"] = fd THEN {"replaced_after_failed_step"} ELSE {})
+                /\ pc' = IF ~M_SyncBeforeRename \/ Site = "generic" THEN "close"
                          ELSE IF D_RenameAfterFailedStep THEN "rename"                  \* mutant: error only logged
                          ELSE "unlink"
-  /\ UNCHANGED <<fd, fpos, tmpName, idx, buf, bad>>
+  /\ UNCHANGED <<fd, fpos, tmpName, idx, buf>>
 
 PUnlink(ok) == \* `_ = os.Remove(tmp)` on the error path of offsetDB.save; its own error is ignored
   /\ pc = "unlink"
@@ -237,13 +249,14 @@ PRename(ok) ==
        bad' = bad \cup (IF ok /\ failed \cap Relevant # {} THEN {"replaced_after_failed_step"} ELSE {})
                   \cup (IF ok /\ ~Durable(i) THEN {"replaced_by_undurable"} ELSE {})
   /\ IF ok THEN FsRename(tmpName, "cur") ELSE UNCHANGED fsvars
-  /\ pc' = IF Site = "file" THEN "close" ELSE "idle"
+  /\ pc' = IF ~M_SyncBeforeRename THEN (IF ok THEN "sync" ELSE "close")                  \* mutant: Sync comes after
+           ELSE IF Site = "file" THEN "close" ELSE "idle"
   /\ UNCHANGED <<fd, fpos, tmpName, idx, buf, failed>>
 
 PClose(ok) ==  \* the descriptor is released whether or not close reports an error; the error is ignored/logged
   /\ pc = "close"
   /\ fd' = 0
-  /\ pc' = IF Site = "file" THEN "idle" ELSE IF failed \cap Relevant = {} THEN "rename" ELSE "idle"
+  /\ pc' = IF Site = "file" \/ ~M_SyncBeforeRename THEN "idle" ELSE IF failed \cap Relevant = {} THEN "rename" ELSE "idle"
   /\ UNCHANGED <<fpos, tmpName, idx, buf, failed, bad>> /\ UNCHANGED fsvars
 
 -----------------------------------------------------------------------------
@@ -351,7 +364,8 @@ AlwaysLoadableP == \A c \in AllViews : Load(c).ok /\ \A j \in Jobs : Load(c).tab
 NeverAheadP     == \A c \in AllViews : Load(c).ok => \A j \in Jobs, s \in Streams : \E v \in held[j] : Load(c).tab[j][s] <= v[s]
 \* the offsets file was replaced only by a file whose complete content had been fsynced
 DurableBeforeReplaceP == "replaced_by_undurable" \notin bad
-\* a failed Open/Write/Sync was never followed by a (successful) Rename in the same save
+\* no save in which an Open/Write/Sync failed has replaced the offsets file -- neither by a Rename after the failure nor
+\* (steps out of order) by a Rename before it
 FailedStepKeepsOldP   == "replaced_after_failed_step" \notin bad
 
 AlwaysLoadable       == AlwaysLoadableP
